@@ -19890,6 +19890,7 @@ impl<
 						> monitor.get_cur_counterparty_commitment_number()
 					|| channel.context.get_latest_monitor_update_id()
 						< monitor.get_latest_update_id()
+					|| monitor.no_further_updates_allowed()
 				{
 					// But if the channel is behind of the monitor, close the channel:
 					log_error!(
